@@ -174,7 +174,7 @@ func OpenFile(name string, flag int, perm os.FileMode) (*File, error) {
 		journal.Faults = append(journal.Faults, "create:"+fsp.CreateErr+":"+name)
 		return nil, &fs.PathError{Op: "open", Path: name, Err: errnoOf(fsp.CreateErr)}
 	}
-	exists := fsp != nil && fsp.OpenErr == "" && fsp.Data != nil
+	exists := fsp != nil && fsp.OpenErr == "" && (fsp.Data != nil || fsp.Pipe)
 	// a file created earlier in this process also exists
 	var prior *Created
 	for _, c := range created {
@@ -221,7 +221,12 @@ func OpenFile(name string, flag int, perm os.FileMode) (*File, error) {
 		trouble("open backing file: " + err.Error())
 	}
 	cr.Closed = false
-	return &File{name: name, real: fp, cr: cr}, nil
+	out := &File{name: name, real: fp, cr: cr}
+	if fsp != nil && fsp.Pipe {
+		out.isPipe = true
+		journal.Faults = append(journal.Faults, "create:FIFO:"+name)
+	}
+	return out, nil
 }
 
 // ReadFile replaces os.ReadFile.
@@ -365,6 +370,9 @@ func (f *File) Truncate(size int64) error {
 	if f.pass != nil {
 		return f.pass.Truncate(size)
 	}
+	if f.isPipe {
+		return &fs.PathError{Op: "truncate", Path: f.name, Err: syscall.EINVAL}
+	}
 	if f.real != nil {
 		return f.real.Truncate(size)
 	}
@@ -372,6 +380,10 @@ func (f *File) Truncate(size int64) error {
 }
 
 func (f *File) Sync() error {
+	if f.isPipe {
+		// fsync on a FIFO or a character device
+		return &fs.PathError{Op: "sync", Path: f.name, Err: syscall.EINVAL}
+	}
 	if f.real != nil {
 		return f.real.Sync()
 	}
@@ -413,6 +425,9 @@ func (i fileInfo) Sys() any           { return nil }
 func (f *File) Stat() (os.FileInfo, error) {
 	if f.pass != nil {
 		return f.pass.Stat()
+	}
+	if f.real != nil && f.isPipe {
+		return fileInfo{name: f.name, size: 0, pipe: true}, nil
 	}
 	if f.real != nil {
 		return f.real.Stat()
